@@ -9,7 +9,10 @@ Class(line, bad) ==
    LET c == line.c IN
    (* F-C16-1: DefaultRefNameResolver maps sub/a.json#/../X and sub_a.json#/../X to the same name *)
    (*          and ignores the origin: <dir>/a.json#/../X and https://m.example<dir>/a.json#/../X get the same name too     *)
+   (*          and trims leading "../": with a root loaded from a relative path, shared/x.json (below the root's directory) and  *)
+   (*          ../shared/x.json (beside it) both become "shared_x_X"                                                                *)
    IF c.shape \in {"collision", "samepath_twohosts"} /\ bad = {"resolves_to_same_content"} THEN "default_name_collision"
+   ELSE IF c.shape = "sametail" /\ c.entry \in {"file_rel", "file_rel_default"} /\ bad = {"resolves_to_same_content"} THEN "default_name_collision"
    (* F-C16-2: references inside a callback that lives in an external file are not rewritten      *)
    ELSE IF c.kind = "callbacks" /\ c.shape \in {"childlocal", "childlocal_shadow"}
            /\ bad \subseteq {"reloads_without_external_refs", "resolves_to_same_content"}
